@@ -861,7 +861,7 @@ class Food(UnitConversions):
 
         self.validate_if_list()
 
-        return Food(
+        food_at_key = Food(
             kcals=self.kcals[key],
             fat=self.fat[key],
             protein=self.protein[key],
@@ -869,6 +869,12 @@ class Food(UnitConversions):
             fat_units=self.fat_units,
             protein_units=self.protein_units,
         )
+
+        # a single month is one value per month, not a list of months (see get_month)
+        if not food_at_key.is_list_monthly():
+            food_at_key.set_units_from_list_to_element()
+
+        return food_at_key
 
     def __setitem__(self, key, value):
         """
